@@ -13,7 +13,7 @@ pub type BatchItem = Item;
 //@include prelude/paths.rs
 //@path std::sync::atomic::Ordering => atomic_shim::Ordering
 //@guards gc_lock.read() gc_lock.write()
-//@world seqno.get seqno.fetch_max data.is_empty lowest_freed_instant.load lowest_freed_instant.store lowest_freed_instant.fetch_max freed_count.fetch_add gc_lock.read gc_lock.write drop SnapshotNonce::new tracker.close tracker.clone_snapshot
+//@world seqno.get seqno.fetch_max data.is_empty lowest_freed_instant.load lowest_freed_instant.store lowest_freed_instant.fetch_max freed_count.fetch_add gc_lock.read gc_lock.write drop SnapshotNonce::new tracker.close tracker.clone_snapshot snapshot_tracker.open inner.snapshot
 
 pub struct Arc<T> { pub t: T }   // std::sync::Arc: shared ownership, Deref to the inner value
 impl<T> std::ops::Deref for Arc<T> { type Target = T; fn deref(&self) -> (r: &T) ensures *r == self.t { &self.t } }
@@ -133,6 +133,42 @@ impl Clone for SnapshotTracker {
             ghost_set_live(w, live_dec(w.tracker.live, self.instant));
             assert forall|i: u64| i != self.instant implies (#[trigger] tcount(w.tracker, i)) == w.tracker.live[i] by { assert(tcount(old(w).tracker, i) == old(w).tracker.live[i]); }
         }
+//@end
+
+// ---- where views are created (src/db.rs Database::snapshot, read_tx of both transactional databases)
+//@extract-type src/snapshot.rs :: Snapshot
+pub struct SupervisorV { pub snapshot_tracker: SnapshotTracker }
+pub struct Database { pub supervisor: SupervisorV }   // Database derefs to DatabaseInner: only `supervisor.snapshot_tracker` is used here
+pub struct OracleH { pub dummy: u8 }
+pub struct MutexUnit { pub dummy: u8 }
+pub struct TxDatabase { pub inner: Database, pub single_writer_lock: Arc<MutexUnit> }
+pub struct OptimisticTxDatabase { pub inner: Database, pub oracle: Arc<OracleH> }
+pub open spec fn view_opened(o: World, n: World, t: SnapshotTracker, r: Snapshot) -> bool {
+    &&& tracker_inv(n) && only_tracker(o, n)
+    &&& r.nonce.instant == n.visible && r.nonce.tracker == t
+    &&& n.tracker.live == live_inc(o.tracker.live, r.nonce.instant)
+}
+//@extract src/snapshot.rs :: Snapshot :: new props=C05
+//@contract
+    ensures r.nonce == nonce, // [C05:snapshot-owns-its-registration]
+//@end
+//@extract src/db.rs :: Database :: snapshot world props=C05+C06
+//@contract
+    requires tracker_wf(&self.supervisor.snapshot_tracker), tracker_inv(*old(w)),
+        forall|i: u64| #![trigger old(w).tracker.live[i]] old(w).tracker.live[i] + 1 < usize::MAX,
+    ensures view_opened(*old(w), *final(w), self.supervisor.snapshot_tracker, r), // [C05:snapshot-is-a-registered-view-at-the-visible-seqno] [C06:snapshot-is-a-registered-view-at-the-visible-seqno]
+//@end
+//@extract src/tx/single_writer/mod.rs :: TxDatabase :: read_tx world props=C05
+//@contract
+    requires tracker_wf(&self.inner.supervisor.snapshot_tracker), tracker_inv(*old(w)),
+        forall|i: u64| #![trigger old(w).tracker.live[i]] old(w).tracker.live[i] + 1 < usize::MAX,
+    ensures view_opened(*old(w), *final(w), self.inner.supervisor.snapshot_tracker, r), // [C05:read-tx-is-a-registered-view-at-the-visible-seqno]
+//@end
+//@extract src/tx/optimistic/mod.rs :: OptimisticTxDatabase :: read_tx world props=C05
+//@contract
+    requires tracker_wf(&self.inner.supervisor.snapshot_tracker), tracker_inv(*old(w)),
+        forall|i: u64| #![trigger old(w).tracker.live[i]] old(w).tracker.live[i] + 1 < usize::MAX,
+    ensures view_opened(*old(w), *final(w), self.inner.supervisor.snapshot_tracker, r), // [C05:read-tx-is-a-registered-view-at-the-visible-seqno]
 //@end
 
 //@canary
